@@ -107,6 +107,20 @@ def run_case(ns, ctx, case):
             od = OrderedDict((f"n{c}_{i}", mods[c]) for i, c in enumerate(children))
             mods[mid] = nn.Sequential(od)
             names = list(od.keys())
+            if rng.random() < 0.3:
+                # the caller goes on using its dict: a twin container is built from the very same dict and then edited, and the dict itself is
+                # changed afterwards - the first container is what it was given at construction
+                twin = nn.Sequential(od)
+                if names:
+                    setattr(twin, names[0], Box())
+                    twin.register_module(names[-1], Box())
+                od["late_entry"] = Box()
+                if names:
+                    od.pop(names[0], None)
+                    od.move_to_end(names[-1], last=False) if names[-1] in od else None
+                features.add("ordered-dict-reused-by-caller")
+            else:
+                twin_single = None
         else:
             mods[mid] = nn.Sequential(*[mods[c] for c in children])
             names = [str(i) for i in range(len(children))]
